@@ -42,6 +42,20 @@ def fmtn(t, maxlen=400):
     return _SUFFIX.sub("", hir.fmt(t, maxlen))
 
 
+def _line_key(n):
+    sp = n.get("sp") or [0, 0]
+    return (sp[0], sp[1])
+
+
+def sym_before_play(body, env, F, sym, node):
+    """A local that captured `self.current_player` (or any other state) reads as that state at `node` when nothing has been played
+    or assigned before `node`: the first push/pop/side assignment of the function comes after it in the text."""
+    first_play = min([_line_key(n) for n, _ in hir.walk(body) if n.get("k") == "MethodCall" and hir.callee_of(n) in ("chess::Game::push", "chess::Game::pop")]
+                     + [_line_key(n) for n, _ in hir.walk(body) if n.get("k") in ("Assign", "AssignOp") and "current_player" in fmtn(sym(n["l"]), 80)]
+                     + [(10 ** 9, 0)])
+    return hir.Sym(env, F, depth=30, through=_line_key(node) < first_play)
+
+
 def normn(t):
     """normal form with the renaming suffixes of expanded / unrolled locals removed"""
     if isinstance(t, tuple):
@@ -459,32 +473,60 @@ def g3(ctx, F, D):
 
 
 def ray_body_generator(ctx, fn, lb, m, names, sym, kind):
-    """if let Some(new_pos) = pos.add(delta) { place = get_position(new_pos); if occupied { if enemy {push}; break } push } else { break }"""
+    """One step of a slider ray, decided by case evaluation (S-eval) of the conditions under which each `push` and each `break`
+    of the loop body is reached: off the board -> stop, nothing generated; empty square -> one quiet move, go on; enemy piece ->
+    one capture of exactly that piece, stop; own piece -> nothing, stop.  Written form (if-let / let-else / match) is free."""
     root = fn["hir"]["body"]
     pushes = [n for n, _ in hir.walk(lb) if n.get("k") == "Call" and _SUFFIX.sub("", hir.strip(n["f"]).get("to", {}).get("name") or "") == "push"]
     breaks = [n for n, _ in hir.walk(lb) if n.get("k") == "Break"]
     d = names[0] if names else "?"
-    edge = occupied = False
-    for b in breaks:
-        g = [x for x in (hir.guards_of(b, lb, sym) or []) if x[0] == "if"]
-        t = [(fmtn(x[1], 200), x[2]) for x in g]
-        if len(t) == 1 and t[0][0].startswith("let(v1::Some, Position::add(pos, ") and t[0][1] is False:
-            edge = True
-        if len(t) == 2 and t[0][1] is True and t[1][0].startswith("let(v1::Some, Game::get_position(game, new_pos)") and t[1][1] is True:
-            occupied = True
-    capture = quiet = False
-    for p in pushes:
-        g = [x for x in (hir.guards_of(p, lb, sym) or []) if x[0] == "if"]
-        t = [(fmtn(x[1], 200), x[2]) for x in g]
-        mv = normn(sym(p["args"][0]))
-        mv_ok = mv[0] == "struct" and mv[1] == MV + "Normal" and dict(mv[2]).get("start") == ("var", "pos") and \
-            dict(mv[2]).get("end") == ("var", "new_pos") and dict(mv[2]).get("piece") == ("var", "self") and \
-            dict(mv[2]).get("captured_piece") == ("call", "chess::Game::get_position", (("var", "game"), ("var", "new_pos")))
-        if len(t) == 3 and t[2] == ("(piece.owner != game.current_player)", True) and t[1][1] is True and mv_ok:
-            capture = True
-        if len(t) == 2 and t[1][0].startswith("let(v1::Some, Game::get_position(game, new_pos)") and t[1][1] is False and mv_ok:
-            quiet = True
-    ok = edge and occupied and capture and quiet and len(pushes) == 2 and len(breaks) == 2
+    SOME, NONE = "std::prelude::v1::Some", ("variant", "std::prelude::v1::None")
+    NP = ("var", "NP")
+    ADD = ("call", "chess::position::Position::add", (("var", "pos"), ("var", d)))
+    # the step of this ray as the body spells it: `pos.add(delta)`, `pos.add((dr * k, dc * k))`, ...
+    adds = set()
+    for x_ in pushes + breaks:
+        for g_ in hir.guards_of(x_, lb, sym) or []:
+            for t_ in hir.subterms(g_[1]) if isinstance(g_[1], tuple) else ():
+                if t_[:2] == ("call", "chess::position::Position::add") and len(t_[2]) == 2:
+                    adds.add(t_)
+    if len(adds) == 1:
+        ADD = next(iter(adds))
+    GET = ("call", "chess::Game::get_position", (("var", "game"), NP))
+    CUR = ("field", ("var", "game"), "current_player")
+
+    def piece(owner):
+        return ("struct", "chess::piece::Piece", (("owner", ("variant", "chess::Player::" + owner)), ("piece_type", ("var", "PT"))))
+    cases = {"edge": ({ADD: NONE}, 0, None, 1),
+             "empty": ({ADD: ("ctor", SOME, (NP,)), GET: NONE}, 1, NONE, 0),
+             "enemy": ({ADD: ("ctor", SOME, (NP,)), GET: ("ctor", SOME, (piece("Black"),)), CUR: ("variant", "chess::Player::White")}, 1,
+                       ("ctor", SOME, (piece("Black"),)), 1),
+             "own": ({ADD: ("ctor", SOME, (NP,)), GET: ("ctor", SOME, (piece("White"),)), CUR: ("variant", "chess::Player::White")}, 0, None, 1)}
+    res = {}
+    for cname, (assume, n_push, captured, n_break) in cases.items():
+        fired, undec = [], []
+        for p in pushes:
+            g = hir.guards_of(p, lb, sym) or []
+            v = normn(hir.fold(hir.guards_term(g, rest=sym(p["args"][0])), assume))
+            if hir.all_leaves_false(v):
+                continue
+            fired.append(v)
+        nb = 0
+        for b in breaks:
+            g = hir.guards_of(b, lb, sym) or []
+            v = hir.fold(hir.guards_term(g), assume)
+            if v == ("lit", True):
+                nb += 1
+            elif not hir.all_leaves_false(v):
+                undec.append(fmtn(v, 80))
+        okc = len(fired) == n_push and nb == n_break and not undec
+        if okc and n_push:
+            want = ("struct", MV + "Normal", (("captured_piece", captured), ("end", NP), ("piece", ("var", "self")), ("start", ("var", "pos"))))
+            got = fired[0]
+            okc = got[0] == "struct" and got[1] == want[1] and dict(got[2]) == dict(want[2])
+        res[cname] = okc
+    edge, quiet, capture, occupied = res["edge"], res["empty"], res["enemy"], res["own"] and res["enemy"]
+    ok = edge and occupied and capture and quiet and bool(pushes) and bool(breaks)
     ctx.check("C01.G3b", "generator:%s-ray-stops-and-captures-correctly" % kind.lower(), ok, fn=fn["path"], file=fn["file"], line=hir.line(m),
               what="a slider ray must stop at the board edge and at the first occupied square, capturing it only if it holds an enemy piece, "
                    "and record the move with the content of the destination as captured piece",
@@ -811,15 +853,38 @@ def g6(ctx, F, D):
     # every own piece contributes, in both modes
     gens = [n for n, _ in hir.walk(body) if n.get("k") == "MethodCall" and hir.callee_of(n) == GEN]
     ok = len(gens) == 1
+    t = []
     if ok:
-        g = hir.guards_of(gens[0], body, sym) or []
+        # the side to move may be read once into a local before the generation pass: that is `self.current_player` as long as
+        # nothing is played before the generator runs (the first push/pop of this function comes after it in the text)
+        symt = sym_before_play(body, env, F, sym, gens[0])
+        g = hir.guards_of(gens[0], body, symt) or []
         lb = loop_binders(g)
-        t = [(fmtn(hir.canon(x[1]), 200), x[2]) for x in plain_guards(g) if x[0] == "if"]
+        t = [(fmtn(hir.canon(x[1]), 200), x[2]) for x in plain_guards(g) if x[0] in ("if", "arm")]
         rng = [fmtn(l[0], 60) for l in lb]
-        ok = rng == ["ops::Range{end: 8, start: 0}", "ops::Range{end: 8, start: 0}"] and \
-            ("(piece.owner == self.current_player)", True) in t and \
-            any(x[0].startswith("let(v1::Some, Game::get_position(self, Position::new_assert(row, col))") or
-                x[0].startswith("let(v1::Some, Game::get_position(self, pos)") for x in t)
+        names = [l[1][0] if l[1] else "?" for l in lb]
+        ok = rng == ["ops::Range{end: 8, start: 0}", "ops::Range{end: 8, start: 0}"]
+        # decided by cases: the generator is called for the piece on (row, col) exactly when that piece belongs to the side to move
+        SQ = ("call", "chess::position::Position::new_assert", tuple(("var", nm) for nm in names))
+        GETP = ("call", "chess::Game::get_position", (("var", "self"), SQ))
+        CUR = ("field", ("var", "self"), "current_player")
+        KEX = ("call", "chess::Game::king_exists", (("var", "self"), CUR))
+
+        def pc(owner):
+            return ("struct", "chess::piece::Piece", (("owner", ("variant", "chess::Player::" + owner)), ("piece_type", ("var", "PT"))))
+        SOME = "std::prelude::v1::Some"
+        reach = hir.guards_term(plain_guards(g))
+        recv = hir.guards_term(plain_guards(g), rest=("tup", symt(gens[0]["recv"]), symt(gens[0]["args"][-1])))
+        for cur in ("White", "Black"):
+            base = {CUR: ("variant", "chess::Player::" + cur), KEX: ("lit", True)}
+            other = "Black" if cur == "White" else "White"
+            def with_(v):
+                a_ = dict(base)
+                a_[GETP] = v
+                return a_
+            ok = ok and hir.all_leaves_false(hir.fold(reach, with_(("variant", "std::prelude::v1::None"))))
+            ok = ok and hir.all_leaves_false(hir.fold(reach, with_(("ctor", SOME, (pc(other),)))))
+            ok = ok and hir.fold(recv, with_(("ctor", SOME, (pc(cur),)))) == ("tup", pc(cur), SQ)
     ctx.check("C01.G6", "generation:every-own-piece-on-all-64-squares", ok, fn=FILTER, file=fn["file"],
               what="moves must be generated for every piece of the side to move on all 64 squares",
               found=[(fmtn(x[1], 120), x[2]) for x in (hir.guards_of(gens[0], body, sym) or []) if x[0] == "if"] if gens else None)
@@ -869,7 +934,7 @@ def g9(ctx, F, D):
     first = hir.strip(sts[0]) if sts else {}
     cleared = first.get("k") == "MethodCall" and first["name"] == "clear" and hir.strip(first["recv"]).get("to", {}).get("name") == "moves"
     rets = [n for n, _ in hir.walk(gbody) if n.get("k") == "Ret"]
-    rg = [[(fmtn(x[1], 80), x[2]) for x in (hir.guards_of(r, gbody, gsym) or []) if x[0] == "if"] for r in rets]
+    rg = [[(fmtn(x[1], 80), x[2]) for x in (hir.guards_of(r, gbody, sym_before_play(gbody, genv, F, gsym, r)) or []) if x[0] == "if"] for r in rets]
     ok = cleared and rg == [[("Game::king_exists(self, self.current_player)", False)]]
     ctx.check("C01.G9", "list-cleared-and-empty-only-without-own-king", ok, fn=FILTER, file=gm["file"],
               what="get_moves must start from an empty list and may return early (no moves) only when the mover has no king", found=rg)
